@@ -9,8 +9,7 @@ void harness(void)
     xv_ghost_havoc();
     xv_tpcore_havoc();
     struct xcm_socket *s;
-    long c0 = xv_ctlp_calls; int e0 = xv_errno;
     do_ctl(s);
-    if (xv_ctlp_calls == c0) XV_CANARY("no control interface: nothing called");
-    if (xv_ctlp_calls == c0 + 1 && xv_errno == EAGAIN && e0 == EAGAIN) XV_CANARY("control interface processed, errno survives");
+    if (!xv_g_ctl) XV_CANARY("no control interface");
+    if (xv_g_ctl && xv_errno == EAGAIN) XV_CANARY("control interface, errno EAGAIN pending");
 }
